@@ -13,6 +13,13 @@ import argparse
 import traceback
 import collections
 import multiprocessing
+import warnings
+
+try:
+    from hypothesis.errors import HypothesisWarning
+    warnings.filterwarnings('ignore', category=HypothesisWarning)
+except Exception:
+    pass
 
 ROOT = os.path.dirname(os.path.dirname(os.path.abspath(__file__)))
 EVIDENCE_DIR = os.path.join(ROOT, 'evidence')
